@@ -229,7 +229,11 @@ fn gen_rules(r: &mut XRng, mode: Mode) -> (Vec<String>, usize) {
                     }
                     5 => {
                         prefix = "@@";
-                        opts.push("generichide".into())
+                        opts.push("generichide".into());
+                        // half of them tagged: active iff the tag is among the enabled ones
+                        if r.chance(1, 2) {
+                            opts.push(format!("tag={}", r.pick(&["t1", "t2"])));
+                        }
                     }
                     6 => opts.push(format!("removeparam={}", r.pick(PARAMS))),
                     7 => opts.push(format!("redirect={}", r.pick(&["noop.js", "noop.js:10", "1x1.gif", "missing.js"]))),
